@@ -266,6 +266,103 @@ def fault(ctx, phases=None, kinds=None, cancel=False):
     loop.run_ready()
     return True, tag + ":" + result["first"][0], None
 
+def dns_share(ctx, k=5, ntasks=3):
+    """Several requests resolve the same uncached host through the real TCPConnector._resolve_host;
+    the resolver is gated by the script.  Cancelling (or timing out) any of them - the one that owns
+    the lookup or one that joined it - must neither fail nor cancel the others, and nothing may
+    stay behind."""
+    import logging
+
+    from aiohttp.abc import AbstractResolver
+    from aiohttp.connector import TCPConnector
+
+    logging.disable(logging.CRITICAL)
+    loop = install(VLoop())
+    gate = {"fut": None, "calls": 0}
+    ADDR = [{"hostname": "h", "host": "10.0.0.1", "port": 80, "family": 2, "proto": 0, "flags": 0}]
+
+    class Resolver(AbstractResolver):
+        async def resolve(self, host, port=0, family=0):
+            gate["calls"] += 1
+            if gate["fut"] is None or gate["fut"].done():
+                gate["fut"] = loop.create_future()
+            return await gate["fut"]
+
+        async def close(self):
+            pass
+
+    async def mk():
+        return TCPConnector(resolver=Resolver(), use_dns_cache=True, ttl_dns_cache=100)
+
+    conn = loop.run_until_complete(mk())
+    tasks = []
+    cancelled = set()
+    trace = []
+    outcome = None  # "ok" | "fail" once the gate was opened
+
+    def fail(key, **kw):
+        info = {"key": key, "trace": trace, "states": [("done" if t.done() else "pending") for t in tasks]}
+        info.update(kw)
+        return False, "inv:" + key, info
+
+    for i in range(k):
+        enabled = []
+        if len(tasks) < ntasks:
+            enabled.append(("start",))
+        for j, t in enumerate(tasks):
+            if not t.done() and j not in cancelled:
+                enabled.append(("cancel", j))
+        if gate["fut"] is not None and not gate["fut"].done():
+            enabled += [("resolve-ok",), ("resolve-fail",)]
+        if not enabled:
+            break
+        op = ctx.pick(f"op{i}", enabled)
+        trace.append(list(op))
+        if op[0] == "start":
+            tasks.append(asyncio.Task(conn._resolve_host("h", 80), loop=loop))
+        elif op[0] == "cancel":
+            tasks[op[1]].cancel()
+            cancelled.add(op[1])
+        elif op[0] == "resolve-ok":
+            gate["fut"].set_result(list(ADDR))
+            outcome = "ok"
+        else:
+            gate["fut"].set_exception(OSError("dns down"))
+            outcome = "fail"
+        if not (i + 1 < k and ctx.flag(f"same_iteration{i}")):
+            loop.run_ready()
+        if loop.exc:
+            return fail("loop-exception-handler-called", exc=str(loop.exc[0].get("exception"))[:200])
+    loop.run_ready()
+    # the lookup finishes now if the script left it open
+    if gate["fut"] is not None and not gate["fut"].done():
+        gate["fut"].set_result(list(ADDR))
+        if outcome is None:
+            outcome = "ok"
+    loop.run_ready()
+    loop.advance(1)
+    if loop.exc:
+        return fail("loop-exception-handler-called", exc=str(loop.exc[0].get("exception"))[:200])
+    for j, t in enumerate(tasks):
+        if not t.done():
+            return fail("resolve-never-completes", task=j)
+        if j in cancelled:
+            continue
+        if t.cancelled():
+            return fail("bystander-cancelled-with-another-request", task=j)
+        e = t.exception()
+        if e is not None and not isinstance(e, OSError):
+            return fail("bystander-failed-with-another-request:" + type(e).__name__, task=j)
+        if e is None and [a["host"] for a in t.result()] != ["10.0.0.1"]:
+            return fail("resolve-result-differs", task=j)
+    if conn._throttle_dns_futures:
+        return fail("throttle-entry-left-behind")
+    if conn._resolve_host_tasks:
+        return fail("lookup-task-left-behind")
+    asyncio.Task(conn.close(), loop=loop)
+    loop.run_ready()
+    return True, f"dns:{outcome}:{len(tasks)}tasks:{len(cancelled)}cancelled", None
+
 
 def twin(ctx):
     r = fault(ctx, phases=["before-status"], kinds=["total"])
@@ -282,6 +379,7 @@ def jobs(tier):
     for ph in PHASES:
         out.append(dict(name=f"fault-{ph}", func="fault", params=dict(phases=[ph]), limits=lim))
         out.append(dict(name=f"cancel-{ph}", func="fault", params=dict(phases=[ph], cancel=True), limits=lim))
+    out.append(dict(name="dns-share", func="dns_share", params=dict(k=5 if quick else 7, ntasks=3 if quick else 4), limits=lim))
     return out
 
 
@@ -289,7 +387,7 @@ def twins(tier):
     return [dict(name="twin", func="twin", params={}, limits={"time_limit": 30, "max_paths": 30})]
 
 
-REQUIRED_OUTCOMES = ("calculate_timeout_when:ceil", "calculate_timeout_when:exact", "before-status:total", "none:")
+REQUIRED_OUTCOMES = ("calculate_timeout_when:ceil", "calculate_timeout_when:exact", "before-status:total", "none:", "dns:ok:3tasks:1cancelled")
 
 
 def bounds(tier):
